@@ -138,7 +138,7 @@ Inductive rerr :=
 | EShortCounts   (* fewer than 8 bytes after the reference document *)
 | EMismatch      (* nmetrics <> metrics in the reference document *)
 | EVarint        (* stream ended / overflow inside the delta section *)
-| EPanic         (* a Go runtime panic: data not binary, binary shorter than 4 *)
+| EBadData       (* data field not a binary value, or shorter than its 4-byte length prefix *)
 | EHuge.         (* nmetrics*ndeltas beyond the model's cap (allocation bomb) *)
 
 (* isNum(n, v) from util.go: int32/int64 equal, or double == float64(n);
@@ -190,7 +190,7 @@ Definition read_chunk_gen (cap : option N) (meta : option doc) (d : doc) : chunk
   match lookup k_data d with
   | None => inr ENoData
   | Some (VBinary _ zb) =>
-      if Nat.ltb (length zb) 4 then inr EPanic else
+      if Nat.ltb (length zb) 4 then inr EBadData else
       match inflate (skipn 4 zb) with
       | None => inr EZlibHeader
       | Some p =>
@@ -219,7 +219,7 @@ Definition read_chunk_gen (cap : option N) (meta : option doc) (d : doc) : chunk
               end
           end
       end
-  | Some _ => inr EPanic
+  | Some _ => inr EBadData
   end.
 
 (* readChunks over the sequence of outer documents: type 0 = metadata (kept for
